@@ -6,6 +6,15 @@
 #
 # Python keeps an abstract tree (dict nodes); from it come (a) the harness JSON, (b) the Gallina `gv` term,
 # (c) the walk used to enumerate paths.  Nothing is judged here.
+#
+# A case is either one such value or a HISTORY `{"seq": [value, value, ...]}`: the values are rendered in this
+# order in one process on one engine (the harness runs every case in a process of its own). The values of a
+# history are look-alikes — distinct Go types that are easily taken for one another: types of the same name
+# declared in different functions or in two packages of the same name (TWINS below, harness/c11_twins.go),
+# reflect.StructOf types over the same field names in another order, with other field types, or with a field
+# more or less — and every value is asked the paths of all the others too. The judge treats each value on its
+# own (the spec has no history), so anything that the conversion of one value leaves behind for the next one
+# shows as a violation on that value, and the replay holds the whole history.
 import copy
 import json
 from common import *
@@ -15,7 +24,10 @@ from common import *
 # {"k":"slice","et":T,"v":None|[node]}  {"k":"map","et":T,"v":None|[(key bytes,node)]}  {"k":"ptr","t":T,"v":None|node}
 # {"k":"iface","named":bool,"v":None|node}  {"k":"dstruct","f":[(Name,node)]}  {"k":"func","r":bytes}  {"k":"chan"}
 # {"k":"Item"|"Base"|"Emb"|"EmbV","f":{Field:node}}
+# {"k":"twin","name":N,"var":V,"f":[(Name,node)]}   a struct look-alike; any other node may carry "tw":(N,V): a named
+#                                                    non-struct look-alike (type Tags []string) over that node's type
 # types T: "iface" "Labeler" "str" "bool" "int".. "float64" "func" "chan" "Item".. {"slice":T} {"map":T} {"ptr":T} {"struct":[[name,T]]}
+#          {"twin":N,"var":V} (+ "struct":[[name,T]] or "under":T when it is the type of a value node)
 
 INT_KINDS = ["int", "int8", "int16", "int32", "int64", "uint", "uint8", "uint16", "uint32", "uint64"]
 INT_RANGE = {"int": (-2**40, 2**40), "int8": (-128, 127), "int16": (-2**15, 2**15 - 1), "int32": (-2**31, 2**31 - 1),
@@ -32,7 +44,70 @@ STRINGS = [b"", b"v", b"hello", b"<b>&\"'", b"a b", b"\xc3\xa9t\xc3\xa9", b"0", 
 ABSENT_NAMES = [b"missing", b"zz", b"nope", b"hidden", b"secret", b"q", b"other", b"x1", b"valid", b"name", b"id", b"len", b"Length"]
 
 SIG = {"Label": b"func() string", "Double": b"func() int", "TagList": b"func() []string", "Total": b"func() int",
-       "Follow": b"func() *main.C11Item", "IsBig": b"func() bool", "BaseNote": b"func() string"}
+       "Follow": b"func() *main.C11Item", "IsBig": b"func() bool", "BaseNote": b"func() string",
+       "Amount": b"func() int", "Code": b"func() string", "Count": b"func() int", "Owner": b"func() *shop.Product"}
+
+
+# ------------------------------------------------------------------ look-alike types (mirror of harness/c11_twins.go,
+# harness/c11_one, harness/c11_two; the harness compares every description below with reflect and fails on a mismatch)
+
+def TW(var, name):
+    return {"twin": name, "var": var}
+
+
+TWINS = {
+    # function-local types of package main: reflect.Type.String() is "main.<Name>" for all four scopes
+    "A": {"Product": {"struct": [["Sku", "str"], ["Price", "int"]]},
+          "Cart": {"struct": [["Items", {"slice": TW("A", "Product")}], ["Owner", {"ptr": TW("A", "Product")}], ["Note", "str"]]},
+          "Entry": {"struct": [["Name", "str"], ["Value", "iface"], ["Next", {"ptr": TW("A", "Entry")}]]},
+          "Tags": {"under": {"slice": "str"}}, "Attrs": {"under": {"map": "int"}}, "Label": {"under": "str"}},
+    "B": {"Product": {"struct": [["Title", "str"], ["Qty", "int"]]},
+          "Cart": {"struct": [["Note", "str"], ["Items", {"slice": TW("B", "Product")}]]},
+          "Entry": {"struct": [["Value", "iface"], ["Name", "str"]]},
+          "Tags": {"under": {"slice": "int"}}, "Attrs": {"under": {"map": "str"}}, "Label": {"under": "int"}},
+    "C": {"Product": {"struct": [["Price", "int"], ["Sku", "str"], ["Title", "str"]]},
+          "Cart": {"struct": [["Owner", TW("C", "Product")], ["Items", {"map": TW("C", "Product")}], ["Note", "int"]]},
+          "Entry": {"struct": [["Name", "int"], ["Value", "str"], ["Next", {"ptr": TW("C", "Entry")}]]},
+          "Tags": {"under": {"slice": TW("C", "Product")}}, "Attrs": {"under": {"map": {"ptr": TW("C", "Product")}}},
+          "Label": {"under": "bool"}},
+    "D": {"Product": {"struct": [["Sku", "str"], ["Price", "int"]]},
+          "Cart": {"struct": [["Items", {"slice": TW("D", "Product")}], ["owner", {"ptr": TW("D", "Product")}], ["Note", "str"], ["Total", "int"]]},
+          "Entry": {"struct": [["name", "str"], ["Value", "iface"], ["Name", "str"]]},
+          "Tags": {"under": {"slice": "str"}}, "Attrs": {"under": {"map": "iface"}}, "Label": {"under": "str"}},
+    # two packages that are both called shop: "shop.Product", "shop.Cart"; these have methods
+    "one": {"Product": {"struct": [["Sku", "str"], ["Price", "int"], ["Tags", {"slice": "str"}]]},
+            "Cart": {"struct": [["Owner", {"ptr": TW("one", "Product")}], ["Items", {"slice": TW("one", "Product")}], ["Note", "str"]]}},
+    "two": {"Product": {"struct": [["Title", "str"], ["Qty", "int"], ["Sku", "str"]]},
+            "Cart": {"struct": [["Note", "str"], ["Items", {"slice": TW("two", "Product")}]]}},
+}
+TWIN_GROUPS = [["A", "B", "C", "D"], ["one", "two"]]      # scopes whose types of one name share their String()
+
+
+def twin_field(n, name):
+    for nm, v in n["f"]:
+        if nm == name:
+            return v
+    raise KeyError(name)
+
+
+def twin_methods(n):
+    """(value-receiver methods, pointer-receiver methods) [(name, result node)] of a look-alike struct node"""
+    key = (n["var"], n["name"])
+    if key == ("one", "Product"):
+        tags = twin_field(n, "Tags")["v"]
+        return ([("Label", S(b"one:" + twin_field(n, "Sku")["v"]))],
+                [("Total", I(twin_field(n, "Price")["v"] + (0 if tags is None else len(tags))))])
+    if key == ("one", "Cart"):
+        items = twin_field(n, "Items")["v"]
+        return [("Count", I(0 if items is None else len(items)))], []
+    if key == ("two", "Product"):
+        return ([("Amount", I(twin_field(n, "Qty")["v"] * 3)), ("Label", S(b"two:" + twin_field(n, "Title")["v"]))],
+                [("Code", S(b"c-" + twin_field(n, "Sku")["v"]))])
+    if key == ("two", "Cart"):
+        items = twin_field(n, "Items")["v"]
+        first = {"k": "ptr", "t": TW("two", "Product"), "v": copy.deepcopy(items[0]) if items else None}
+        return [("Owner", first)], [("Count", I(0 if items is None else 2 * len(items)))]
+    return [], []
 
 
 def S(s):
@@ -64,7 +139,12 @@ def upper_first(s):
 # ------------------------------------------------------------------ types of nodes (for the harness)
 
 def ty(n):
+    if n.get("tw"):                      # a named non-struct look-alike over the node's own type
+        name, var = n["tw"]
+        return dict(TW(var, name), under=TWINS[var][name]["under"])
     k = n["k"]
+    if k == "twin":
+        return dict(TW(n["var"], n["name"]), struct=TWINS[n["var"]][n["name"]]["struct"])
     if k == "str":
         return "str"
     if k == "int":
@@ -103,7 +183,7 @@ def to_json(n):
         return {"ty": t, "v": None if n["v"] is None else [{"k": hx(kk), "v": to_json(x)} for kk, x in n["v"]]}
     if k == "ptr" or k == "iface":
         return {"ty": t, "v": None if n["v"] is None else to_json(n["v"])}
-    if k == "dstruct":
+    if k in ("dstruct", "twin"):
         return {"ty": t, "v": [to_json(v) for _, v in n["f"]]}
     if k == "func":
         return {"ty": t, "v": hx(n["r"])}
@@ -149,6 +229,9 @@ def fam_view(n):
         base = fam_get(n, "C11Base", {"k": "Base", "f": {}})
         return ([("C11Base", True, base), ("Title", True, fam_get(n, "Title", S(b"")))], [],
                 [("BaseNote", S(b"note:" + fam_get(base, "Note", S(b""))["v"]))])
+    if k == "twin":
+        vm, pm = twin_methods(n)
+        return [(nm, nm[:1].isupper(), v) for nm, v in n["f"]], vm, pm
     raise ValueError(k)
 
 
@@ -282,7 +365,27 @@ def with_case_pair(rng, keys):
     return keys
 
 
+def gen_twin(rng, t, depth):
+    """a value of the look-alike type t = {"twin": name, "var": scope}"""
+    name, var = t["twin"], t["var"]
+    desc = TWINS[var][name]
+    if "under" in desc:
+        n = gen_value(rng, desc["under"], depth)
+        n["tw"] = (name, var)
+        return n
+    fs = []
+    for nm, ft in desc["struct"]:
+        if depth <= 0 and isinstance(ft, dict) and ("ptr" in ft or "slice" in ft or "map" in ft) and "twin" in json.dumps(ft):
+            k = "ptr" if "ptr" in ft else "slice" if "slice" in ft else "map"      # recursive types end here
+            fs.append((nm, {"k": k, "t" if k == "ptr" else "et": ft[k], "v": None}))
+        else:
+            fs.append((nm, gen_value(rng, ft, depth - 1)))
+    return {"k": "twin", "name": name, "var": var, "f": fs}
+
+
 def gen_value(rng, t, depth):
+    if isinstance(t, dict) and "twin" in t:
+        return gen_twin(rng, t, depth)
     if isinstance(t, str):
         if t == "str":
             return S(rng.choice(STRINGS))
@@ -405,7 +508,7 @@ def children(n):
     elif k == "dstruct":
         for nm, v in s["f"]:
             out.append(({"f": hx(lower_first(nm.encode()))}, v, "field"))
-    elif k in ("Item", "Base", "Emb", "EmbV"):
+    elif k in ("Item", "Base", "Emb", "EmbV", "twin"):
         fields, vm, pm = fam_view(s)
         for nm, ex, v in fields:
             if ex:
@@ -533,6 +636,20 @@ def py_walk(d, steps):
     return cur, first_tag
 
 
+def admit(rng, d, steps, raw):
+    """keeps the listed findings and the model's blind spots rare; returns (keep, raw)"""
+    if not steps or "f" not in steps[0]:
+        return False, raw
+    end, first_tag = py_walk(d, steps)
+    if first_tag == "method" and rng.random() < 0.85:
+        return False, raw        # a method of the page data itself is the listed finding F-C11-b: keep it rare
+    if end is not None and not is_leafish(end) and rng.random() < 0.9:
+        return False, raw        # ends on a composite: outside the model's printing
+    if raw and first_tag is None and all("f" in s for s in steps) and rng.random() < 0.85:
+        raw = False              # `!= missing` is the listed finding F-C11-c: keep it rare
+    return True, raw
+
+
 def gen_paths(rng, d, tier):
     n = rng.randint(3, 8) if tier == "quick" else rng.randint(4, 10)
     out, kinds = [], []
@@ -547,15 +664,9 @@ def gen_paths(rng, d, tier):
             steps, kind = break_path(rng, d, steps, tags)
         elif "method" in tags:
             kind = "good_method"
-        if not steps or "f" not in steps[0]:
+        keep, raw = admit(rng, d, steps, raw)
+        if not keep:
             continue
-        end, first_tag = py_walk(d, steps)
-        if first_tag == "method" and rng.random() < 0.85:
-            continue             # a method of the page data itself is the listed finding F-C11-b: keep it rare
-        if end is not None and not is_leafish(end) and rng.random() < 0.9:
-            continue             # ends on a composite: outside the model's printing
-        if raw and first_tag is None and all("f" in s for s in steps) and rng.random() < 0.85:
-            raw = False          # `!= missing` is the listed finding F-C11-c: keep it rare
         key = (json.dumps(steps), raw)
         if key in seen:
             continue
@@ -568,6 +679,146 @@ def gen_paths(rng, d, tier):
     return out, kinds
 
 
+# ------------------------------------------------------------------ histories: look-alike values one after the other
+
+SEQ_KINDS = [("twins_local", 0.28), ("twins_pkg", 0.14), ("permuted", 0.16), ("retyped", 0.14), ("resized", 0.12), ("mixed", 0.16)]
+WRAPPERS = ["key", "key", "ptrkey", "top", "slice", "field", "any", "typedmap", "ptrfield"]
+
+
+def struct_type(rng, depth, lo=2, hi=5):
+    return {"struct": [[nm, gen_type(rng, depth)] for nm in rng.sample(FIELD_NAMES, rng.randint(lo, hi))]}
+
+
+def alike_types(rng, kind, depth):
+    """2-3 distinct types that look alike"""
+    k = rng.choice([2, 2, 3])
+    if kind == "twins_local":
+        name = rng.choice(["Product", "Product", "Cart", "Cart", "Entry", "Entry", "Tags", "Attrs", "Label"])
+        return [TW(v, name) for v in rng.sample(TWIN_GROUPS[0], k)]
+    if kind == "twins_pkg":
+        name = rng.choice(["Product", "Product", "Cart"])
+        vs = rng.sample(TWIN_GROUPS[1], 2)
+        return [TW(v, name) for v in vs]
+    t0 = struct_type(rng, depth)
+    out = [t0]
+    for _ in range(k - 1):
+        fs = copy.deepcopy(out[-1]["struct"])
+        if kind == "permuted":            # the same fields in another order
+            for _ in range(5):
+                rng.shuffle(fs)
+                if fs != out[-1]["struct"]:
+                    break
+        elif kind == "retyped":           # the same names: types moved to other names, or replaced, positions kept or not
+            tys = [f[1] for f in fs]
+            if rng.random() < 0.5:
+                tys = tys[1:] + tys[:1]
+            else:
+                i = rng.randrange(len(tys))
+                tys[i] = gen_type(rng, depth)
+            fs = [[f[0], t] for f, t in zip(fs, tys)]
+            if rng.random() < 0.4:
+                rng.shuffle(fs)
+        else:                             # resized: a field less or a field more, in front / in the middle / at the end
+            if len(fs) > 1 and rng.random() < 0.5:
+                del fs[rng.randrange(len(fs))]
+            else:
+                nm = rng.choice([x for x in FIELD_NAMES if x not in [f[0] for f in fs]])
+                fs.insert(rng.randint(0, len(fs)), [nm, gen_type(rng, depth)])
+        out.append({"struct": fs})
+    return out
+
+
+def wrap(rng, w, v, extra):
+    """page data that holds the value v in the position w (the same position for every value of a history)"""
+    t = ty(v)
+    iface = lambda x: {"k": "iface", "named": False, "v": x}
+    if w == "top":
+        return v
+    if w == "key":
+        return {"k": "map", "et": "iface", "v": [(b"d", iface(v))] + extra}
+    if w == "ptrkey":
+        return {"k": "map", "et": "iface", "v": extra + [(b"d", iface({"k": "ptr", "t": t, "v": v}))]}
+    if w == "slice":
+        return {"k": "map", "et": "iface", "v": [(b"list", iface({"k": "slice", "et": t, "v": [v]}))] + extra}
+    if w == "typedmap":
+        return {"k": "map", "et": t, "v": [(b"d", v)]}
+    if w == "field":
+        return {"k": "dstruct", "f": [("Box", v), ("Note", S(b"n"))]}
+    if w == "ptrfield":
+        d = {"k": "dstruct", "f": [("Box", {"k": "ptr", "t": t, "v": v})]}
+        return {"k": "ptr", "t": ty(d), "v": d}
+    if w == "any":
+        return {"k": "Item", "f": {"Name": S(b"holder"), "Any": iface(v)}}
+    raise ValueError(w)
+
+
+def gen_history(rng, tier):
+    """(values [(data node, paths, path kinds)], kind of history)"""
+    r, kind = rng.random(), None
+    for kind, share in SEQ_KINDS:
+        r -= share
+        if r < 0:
+            break
+    depth = rng.choice([1, 1, 2, 2, 3])
+    if kind == "mixed":                   # an arbitrary history of ordinary page data
+        datas = [gen_data(rng, tier) for _ in range(rng.choice([2, 3, 3, 4]))]
+    else:
+        types = alike_types(rng, kind, depth - 1)
+        vals = [gen_value(rng, t, depth) for t in types]
+        r = rng.random()
+        if r < 0.25:                      # ... and the first type once more, after the others
+            vals.append(gen_value(rng, types[0], depth))
+        elif r < 0.35:
+            vals.append(copy.deepcopy(vals[0]))
+        w = rng.choice(WRAPPERS)
+        if w == "top" and vals[0]["k"] not in ("twin", "dstruct", "map"):
+            w = "key"
+        extra = [(kk, gen_value(rng, "iface", 1)) for kk in rng.sample([b"title", b"count", b"meta", b"x"], rng.choice([0, 0, 1, 2]))]
+        datas = [wrap(rng, w, v, extra) for v in vals]
+    # every value is asked its own good paths and those of the others
+    pool, seen = [], set()
+    for d in datas:
+        for _ in range(rng.randint(3, 5)):
+            steps, tags, end = random_walk(rng, d, rng.choice([3, 4, 6]))
+            key = json.dumps(steps)
+            if steps and key not in seen:
+                seen.add(key)
+                pool.append((steps, "good_method" if "method" in tags else "good"))
+    values = []
+    for d in datas:
+        paths, kinds = [], []
+        cand = list(pool)
+        rng.shuffle(cand)
+        for steps, kd in cand:
+            if len(paths) >= (7 if tier == "quick" else 9):
+                break
+            keep, raw = admit(rng, d, steps, rng.random() < 0.25)
+            if keep:
+                paths.append({"steps": steps, "raw": raw})
+                kinds.append(kd if py_walk(d, steps)[0] is not None else "of_another_value")
+        if rng.random() < 0.5:
+            steps, tags, end = random_walk(rng, d, 4)
+            steps, kd = break_path(rng, d, steps, tags)
+            keep, raw = admit(rng, d, steps, False)
+            if keep and json.dumps(steps) not in [json.dumps(p["steps"]) for p in paths]:
+                paths.append({"steps": steps, "raw": raw})
+                kinds.append(kd)
+        if not paths:
+            paths.append({"steps": [{"f": hx(b"missing")}], "raw": False})
+            kinds.append("undefined_top")
+        values.append((d, paths, kinds))
+    return values, kind
+
+
+def case_values(case):
+    """the values of a case in rendering order: [{"data", "paths", ("kinds")}]"""
+    return case["seq"] if "seq" in case else [case]
+
+
+def obs_values(obs):
+    return obs["vals"] if obs.get("vals") else [obs]
+
+
 CLASS_CODE = {"ok": 0, "exec_panic": 1, "error": 1}
 
 
@@ -578,17 +829,32 @@ class C11(Prop):
     prop_module = "Props.C11"
     prop_file = "Props/C11.v"
     coq_targets = ["Props/C11.vo", "Run/Judge_C11.vo"]
-    sizes = {"quick": 1500, "thorough": 24000}
-    shard = 120
+    sizes = {"quick": 1250, "thorough": 18000}
+    seq_share = 0.30
+    shard = 100
     design_ref = "DESIGN.md section 6 C11"
-    rule = ("one evaluation = one Go data tree (built by reflection: reflect.StructOf structs, the hand-written family "
-            "C11Item/C11Emb/C11EmbV/C11Base/C11Labeler, typed and interface maps, slices, pointers, nil anywhere) with "
-            "3-10 paths rendered as `= path` / `!= path` through Engine.Render; non-trivial = at least one path of two or "
-            "more steps that prints a non-empty leaf and at least one path that reaches nothing; distinct by SHA-1 of the case")
+    rule = ("one evaluation = one process of the harness that renders, on one engine, either one Go data tree or (30% of "
+            "the cases) a history of 2-4 data trees one after the other, each with 3-10 paths rendered as `= path` / "
+            "`!= path` through Engine.Render. Data trees are built by reflection: reflect.StructOf structs, the "
+            "hand-written family C11Item/C11Emb/C11EmbV/C11Base/C11Labeler, typed and interface maps, slices, pointers, "
+            "nil anywhere. The values of a history look alike: distinct types with the same reflect.Type.String() "
+            "(types Product/Cart/Entry/Tags/Attrs/Label declared locally in four functions: other field names, order, "
+            "number, types, unexported fields; Product/Cart of two packages both called shop, with different method "
+            "sets), reflect.StructOf types over the same field names in another order, with other types, with a field "
+            "more or less, or unrelated page data; held at the top level, under a map key, behind a pointer, in a slice, "
+            "a typed map, a struct field or an interface field; the first type may come again at the end; every value is "
+            "asked the paths of the other values too. Each value of a history is judged on its own against the spec "
+            "(which knows no history); the worst verdict is the case's. Non-trivial = a single value with at least one "
+            "path of two or more steps that prints a non-empty leaf and at least one path that reaches nothing, or a "
+            "history of at least two different types in which one and the same path prints different things for two "
+            "values; distinct by SHA-1 of the case")
     trusted = [
         "Go's reflect package, fmt and big.Float formatting (integers below 10^10 print as plain digits), the JS front end "
         "(otto) and the template compiler for `= a.b[0]['k'].c`: covered by the correspondence, not by a theorem",
-        "the Python description of the hand-written family (fields, method sets, method results) that is emitted as the gv term",
+        "the Python description of the hand-written family (method sets, method results) that is emitted as the gv term; "
+        "the field lists of the look-alike types (TWINS) are compared with reflect by the harness on every use",
+        "process isolation by the harness: every case runs in a freshly started process (os/exec of the harness binary), "
+        "so a verdict depends on the case alone and a replay reproduces it",
     ]
     assumptions = [
         "a Go value is the tree reflect exposes: an embedded struct is a field named after its type plus the promoted "
@@ -596,79 +862,135 @@ class C11(Prop):
         "names are ASCII; the first name of a path is not a registered template function, `global` or `range`",
         "methods and func values are pure and do not panic; page data is not mutated during a render",
         "production wiring: a logger is configured and debug mode is off (panicOrError logs instead of panicking)",
+        "the model keeps nothing between two conversions (C11_history is the per-render statement mapped over a history); "
+        "that the real code keeps nothing either - no table in the process or the engine that outlives one converted "
+        "value - is explored by the histories (one process, one engine, up to 5 values), not proved; renders of one "
+        "history are sequential (concurrent renders are C08's)",
     ]
     not_yet_proved = []
 
     def generate(self, rng, n, tier):
         cases = []
         for _ in range(n):
+            if rng.random() < self.seq_share:
+                values, kind = gen_history(rng, tier)
+                cases.append({"seq": [{"data": to_json(d), "paths": ps, "kinds": ks} for d, ps, ks in values], "skind": kind})
+                continue
             d = gen_data(rng, tier)
             paths, kinds = gen_paths(rng, d, tier)
             cases.append({"data": to_json(d), "paths": paths, "kinds": kinds})
         return cases
 
     def run(self, binary, cases, tmp, tier):
-        wire = [{"data": c["data"], "paths": c["paths"]} for c in cases]
+        strip_v = lambda v: {"data": v["data"], "paths": v["paths"]}
+        wire = [{"seq": [strip_v(v) for v in c["seq"]]} if "seq" in c else strip_v(c) for c in cases]
         return run_harness(binary, self.engine, wire)
 
     # cases carry only the harness format (JSON-clean): the abstract tree is rebuilt from it
-    def tree_of(self, case):
-        return from_json(case["data"])
+    def tree_of(self, value):
+        return from_json(value["data"])
 
     def emit(self, case, obs):
-        d = self.tree_of(case)
-        ps = []
-        for p, o in zip(case["paths"], obs["paths"]):
-            cls = CLASS_CODE.get(o["class"], 2)
-            out = unhx(o.get("out") or "") if cls == 0 else b""
-            ps.append(b"{| po_steps := " + cq_list([coq_step(s) for s in p["steps"]]) + b"; po_raw := " + cq_bool(p["raw"]) +
-                      b"; po_class := " + cq_nat(cls) + b"; po_out := " + cq_bytes(out) + b" |}")
-        return b"{| data := " + coq_gv(d) + b"; paths := " + cq_list(ps) + b" |}"
+        vs = []
+        for v, ob in zip(case_values(case), obs_values(obs)):
+            d = self.tree_of(v)
+            ps = []
+            for p, o in zip(v["paths"], ob["paths"]):
+                cls = CLASS_CODE.get(o["class"], 2)
+                out = unhx(o.get("out") or "") if cls == 0 else b""
+                ps.append(b"{| po_steps := " + cq_list([coq_step(s) for s in p["steps"]]) + b"; po_raw := " + cq_bool(p["raw"]) +
+                          b"; po_class := " + cq_nat(cls) + b"; po_out := " + cq_bytes(out) + b" |}")
+            vs.append(b"{| data := " + coq_gv(d) + b"; paths := " + cq_list(ps) + b" |}")
+        return cq_list(vs)
 
     def nontrivial(self, case, obs):
-        deep = any(len(p["steps"]) >= 2 and o["class"] == "ok" and o.get("out") for p, o in zip(case["paths"], obs["paths"]))
-        empty = any(o["class"] == "ok" and not o.get("out") for o in obs["paths"])
-        return deep and empty
+        vals, obss = case_values(case), obs_values(obs)
+        if len(vals) == 1:
+            c, o = vals[0], obss[0]
+            deep = any(len(p["steps"]) >= 2 and r["class"] == "ok" and r.get("out") for p, r in zip(c["paths"], o["paths"]))
+            empty = any(r["class"] == "ok" and not r.get("out") for r in o["paths"])
+            return deep and empty
+        if len({json.dumps(v["data"]["ty"], sort_keys=True) for v in vals}) < 2:
+            return False
+        printed = {}
+        for v, o in zip(vals, obss):
+            for p, r in zip(v["paths"], o["paths"]):
+                if r["class"] == "ok":
+                    printed.setdefault(json.dumps(p["steps"]), set()).add(r.get("out") or "")
+        return any(len(outs) >= 2 for outs in printed.values())
 
     def sample(self, case, obs):
-        return {"data": case["data"], "paths": [{"src": s, "raw": p["raw"], "go": o["class"],
-                                                  "out": unhx(o.get("out") or "").decode("utf-8", "replace")}
-                                                 for s, p, o in zip(obs.get("src") or [], case["paths"], obs["paths"])][:6]}
+        one = lambda c, o: {"data": c["data"], "go_type": o.get("type"),
+                            "paths": [{"src": s, "raw": p["raw"], "go": r["class"],
+                                       "out": unhx(r.get("out") or "").decode("utf-8", "replace")}
+                                      for s, p, r in zip(o.get("src") or [], c["paths"], o["paths"])][:6]}
+        if "seq" in case:
+            return {"history": case.get("skind"), "values": [one(c, o) for c, o in zip(case_values(case), obs_values(obs))]}
+        return one(case, obs)
 
-    def shrink(self, case):
-        base = {"data": case["data"], "paths": case["paths"]}
-        ps = case["paths"]
+    def shrink_value(self, v):
+        ps = v["paths"]
         if len(ps) > 1:
             for i in range(len(ps)):
-                yield {"data": case["data"], "paths": [ps[i]]}
+                yield {"data": v["data"], "paths": [ps[i]]}
             return
         # one path left: shorten it, then drop parts of the data
         steps = ps[0]["steps"]
         for i in range(len(steps) - 1, 0, -1):
-            yield {"data": case["data"], "paths": [{"steps": steps[:i] + steps[i + 1:], "raw": ps[0]["raw"]}]}
-        for smaller in shrink_json(case["data"]):
+            yield {"data": v["data"], "paths": [{"steps": steps[:i] + steps[i + 1:], "raw": ps[0]["raw"]}]}
+        for smaller in shrink_json(v["data"]):
             yield {"data": smaller, "paths": ps}
+
+    def shrink(self, case):
+        if "seq" not in case:
+            yield from self.shrink_value(case)
+            return
+        vals = [{"data": v["data"], "paths": v["paths"]} for v in case["seq"]]
+        if len(vals) == 1:
+            yield vals[0]
+        for i in range(len(vals)):            # a shorter history (the order stays)
+            if len(vals) > 1:
+                yield {"seq": vals[:i] + vals[i + 1:]}
+        for i, v in enumerate(vals):          # the same history with one value made smaller
+            for sv in self.shrink_value(v):
+                yield {"seq": vals[:i] + [sv] + vals[i + 1:]}
 
     def model_expr(self):
         return "explain c"
 
     def distribution(self, cases, obss):
-        d = {"paths": 0, "raw_paths": 0, "go_error": 0, "go_empty": 0, "go_nonempty": 0, "path_kinds": {}, "top_kinds": {},
-             "path_lengths": {}}
+        d = {"values": 0, "paths": 0, "raw_paths": 0, "go_error": 0, "go_empty": 0, "go_nonempty": 0, "path_kinds": {},
+             "top_kinds": {}, "path_lengths": {}, "histories": 0, "history_kinds": {}, "history_lengths": {},
+             "values_in_histories": 0, "history_paths_of_another_value": 0, "histories_whose_page_data_types_share_a_name": {}}
         for c, o in zip(cases, obss):
-            t = self.tree_of(c)
-            d["top_kinds"][t["k"]] = d["top_kinds"].get(t["k"], 0) + 1
-            for i, (p, r) in enumerate(zip(c["paths"], o["paths"])):
-                d["paths"] += 1
-                d["raw_paths"] += bool(p["raw"])
-                d["go_error"] += r["class"] != "ok"
-                d["go_empty"] += r["class"] == "ok" and not r.get("out")
-                d["go_nonempty"] += r["class"] == "ok" and bool(r.get("out"))
-                L = str(min(len(p["steps"]), 7))
-                d["path_lengths"][L] = d["path_lengths"].get(L, 0) + 1
-                kinds = c.get("kinds")
-                if kinds:
-                    d["path_kinds"][kinds[i]] = d["path_kinds"].get(kinds[i], 0) + 1
+            vals, vobs = case_values(c), obs_values(o)
+            if "seq" in c:
+                d["histories"] += 1
+                d["values_in_histories"] += len(vals)
+                k = c.get("skind") or "corpus"
+                d["history_kinds"][k] = d["history_kinds"].get(k, 0) + 1
+                L = str(len(vals))
+                d["history_lengths"][L] = d["history_lengths"].get(L, 0) + 1
+                names = [x.get("type") or "nil" for x in vobs]
+                if len(set(names)) < len({json.dumps(v["data"]["ty"], sort_keys=True) for v in vals}):
+                    nm = max(names, key=names.count)      # distinct types, one name
+                    d["histories_whose_page_data_types_share_a_name"][nm] = d["histories_whose_page_data_types_share_a_name"].get(nm, 0) + 1
+            for v, ob in zip(vals, vobs):
+                d["values"] += 1
+                t = self.tree_of(v)
+                d["top_kinds"][t["k"]] = d["top_kinds"].get(t["k"], 0) + 1
+                for i, (p, r) in enumerate(zip(v["paths"], ob["paths"])):
+                    d["paths"] += 1
+                    d["raw_paths"] += bool(p["raw"])
+                    d["go_error"] += r["class"] != "ok"
+                    d["go_empty"] += r["class"] == "ok" and not r.get("out")
+                    d["go_nonempty"] += r["class"] == "ok" and bool(r.get("out"))
+                    L = str(min(len(p["steps"]), 7))
+                    d["path_lengths"][L] = d["path_lengths"].get(L, 0) + 1
+                    kinds = v.get("kinds")
+                    if kinds:
+                        d["path_kinds"][kinds[i]] = d["path_kinds"].get(kinds[i], 0) + 1
+                        d["history_paths_of_another_value"] += kinds[i] == "of_another_value"
         return d
 
 
@@ -676,6 +998,14 @@ class C11(Prop):
 
 def from_json(j):
     t, v = j["ty"], j.get("v")
+    if isinstance(t, dict) and "twin" in t:
+        desc = TWINS[t["var"]][t["twin"]]
+        if "under" in desc:
+            n = from_json({"ty": desc["under"], "v": v})
+            n["tw"] = (t["twin"], t["var"])
+            return n
+        return {"k": "twin", "name": t["twin"], "var": t["var"],
+                "f": [(nm, from_json(x)) for (nm, _), x in zip(desc["struct"], v)]}
     if isinstance(t, str):
         if t == "str":
             return S(unhx(v))
@@ -709,6 +1039,18 @@ def shrink_json(j):
     """smaller variants of a harness data node: drop one element somewhere, replace a subtree by nil/empty"""
     t, v = j["ty"], j.get("v")
     if v is None:
+        return
+    if isinstance(t, dict) and "twin" in t:
+        desc = TWINS[t["var"]][t["twin"]]
+        if "struct" in desc:                      # the type is fixed: only the field values shrink
+            for i, e in enumerate(v):
+                for s in shrink_json(e):
+                    if s["ty"] == e["ty"]:
+                        yield {"ty": t, "v": v[:i] + [s] + v[i + 1:]}
+        else:
+            for s in shrink_json({"ty": desc["under"], "v": v}):
+                if s["ty"] == desc["under"]:
+                    yield {"ty": t, "v": s["v"]}
         return
     if isinstance(t, dict) and ("slice" in t or "map" in t):
         for i in range(len(v)):
